@@ -807,6 +807,7 @@ ARGS = [
     (['~'], {}),
     (['~~'], {'tilde': '~~'}),
     (['a~~~b'], {}),
+    (['x~~~~y', '~~~~~'], {'run': '~' * 7, '~~~~': 8}),
     ([], {'sep': '~~~'}),
     (['"value":'], {}),
     ([], {'value': 1}),
@@ -819,7 +820,7 @@ ARGS = [
 BEHS = [
     ['ret', 'R'], ['ret', 0], ['ret', False], ['ret', ''], ['ret', []], ['ret', [1, 'a', None]], ['ret', {'a': {'b': 1}}],
     ['ret', 'x~~~y'], ['ret', 'r\udce9 \U0001f600'], ['ret', {'value': 1, 'name': 'n'}], ['ret', {'$pad': 5000}], ['ret', {'$pad': 10000}], ['ret', {'$pad': 70000}],
-    ['none', None], ['raise', None], ['gen', 'G', 1], ['gen', {'$pad': 5000}, 2], ['nohandler', None], ['fwd', 'F'],
+    ['none', None], ['raise', None], ['gen', 'G', 1], ['gen', {'$pad': 5000}, 2], ['nohandler', None], ['fwd', 'F'], ['ret', 'x~~~~y ~~~~~ ' + '~' * 8],
 ]
 # (not in the alphabet: ['fwdgen', ..] - handing on to an event whose handler is a generator: when the call's own handlers are done
 # the handed-on event is not, the value is unresolved (None) for a local caller resumed at that moment as well; the statement does
